@@ -237,6 +237,10 @@ pub fn run_batch<S: Scenario>(
             if *n > 1 {
                 continue;
             }
+            // at most a dozen classes are minimised and written out per batch
+            if res.violations.len() >= 12 {
+                continue;
+            }
             let seed = run_seed(master_seed, scn.tag(), *i);
             let ops = scn.generate(seed);
             let before = ops.len();
@@ -328,6 +332,7 @@ pub fn replay_doc<S: Scenario>(
         ("run", J::u(run)),
         ("run_seed", J::u(run_seed)),
         ("digest", J::Str(format!("{:016x}", out.digest_std))),
+        ("no_ff", J::Bool(crate::gen::NO_FF.load(std::sync::atomic::Ordering::Relaxed))),
         ("ops", J::Arr(ops.iter().map(|o| scn.op_to_json(o)).collect())),
         ("faults", J::Arr(scn.faults(ops).into_iter().map(|(k, n)| J::obj(vec![("kind", J::Str(k)), ("count", J::u(n))])).collect())),
         ("log", J::Arr(out.lines.iter().map(|l| J::Str(abridge_str(l, 400))).collect())),
